@@ -4,6 +4,7 @@ import (
 	"fmt"
 	"go/ast"
 	"go/types"
+	"strings"
 
 	"golang.org/x/tools/go/cfg"
 
@@ -82,4 +83,35 @@ func errCheckedBefore(r *an.R, rule string, d *an.DeclInfo, g *an.G, fname, what
 
 func reachesLoc(g *an.G, from, to an.Loc) bool {
 	return from == to || g.Reach(from, true, &an.Search{Target: func(l an.Loc) bool { return l == to }})
+}
+
+// calleeDecls returns d followed by the declarations of the same-package
+// functions that d's body calls directly (one level; no test files): rules
+// that look for a construct "in function F" also look in the helpers F was
+// split into.
+func calleeDecls(p *an.Prog, d *an.DeclInfo) []*an.DeclInfo {
+	out := []*an.DeclInfo{d}
+	if d == nil || d.Decl.Body == nil {
+		return out
+	}
+	info := d.Pkg.TypesInfo
+	seen := map[*an.DeclInfo]bool{d: true}
+	ast.Inspect(d.Decl.Body, func(n ast.Node) bool {
+		c, ok := n.(*ast.CallExpr)
+		if !ok {
+			return true
+		}
+		fn := an.Callee(info, c)
+		if fn == nil || fn.Pkg() == nil || fn.Pkg() != d.Pkg.Types {
+			return true
+		}
+		hd := p.Decl(fn)
+		if hd == nil || hd.Decl.Body == nil || seen[hd] || strings.HasSuffix(p.Fset.Position(hd.Decl.Pos()).Filename, "_test.go") {
+			return true
+		}
+		seen[hd] = true
+		out = append(out, hd)
+		return true
+	})
+	return out
 }
